@@ -94,7 +94,7 @@ def run(ctx):
     for e in ents:
         cfgs = e.configs(ctx.rng, ctx.quick)
         trials = []
-        for t in range(ctx.n(20, 300)):
+        for t in range(ctx.n(60, 400)):
             cfg = cfgs[t % len(cfgs)]
             nb = ctx.rng.choice([1, 2, 3, 5, 8])
             batches = [e.gen_batch(ctx.rng, cfg, max(e.min_batch, ctx.rng.choice([1, 2, 3, 7, 16]))) for _ in range(nb)]
